@@ -26,6 +26,13 @@ NOTES.update({
  "w3-C17-m2": "missed at first: no large solid regions in the bilevel images; images with big rectangles touching the edges (and all-black / all-white) added",
  "w3-C18-m2": "missed at first: only registry spellings of charset names were used; non-registered spellings added to the QR and ECI operations",
 })
+NOTES.update({
+ "w4-C04-m2": "first run: exit 2 - the failure depends on which field the same process encoded in before, so the single-run trace did not reproduce; the runner now falls back to replaying the worker's shard prefix (a pure function of seed and code); then caught",
+ "w4-C10-m1": "missed at first: Code 128 writer inputs had no control characters between lower-case letters; added",
+ "w4-C17-m2": "missed at first: rows were only read from the parent bitmap; rows of cropped bitmaps (whose binariser is created from the parent's) are now checked against the row model",
+ "w4-C18-m1": "missed at first: UTF-16BE was one of many character sets, two tasks rarely used it together; `qreci` operation and runs in which every task uses the same selector (character set, field, image) added",
+ "w4-C18-m2": "missed at first: the three special 5-digit add-on values were practically never drawn; the price-table values are now over-sampled (oracle (c) then sees the shared table change after a single decode)",
+})
 rows=[]
 for d in sorted(glob.glob('/verif/seeded/*/')):
     name=os.path.basename(d.rstrip('/'))
